@@ -76,10 +76,30 @@ class Env(object):
         return Adt(BOUND, self.LOWER if kind == "L" else self.UPPER, (p,))
 
     def bset(self, lower, upper):
+        if self.nfields > 2:
+            # BoundSet carries more than its two bounds (a cached flag …): only its own constructor knows how to fill that
+            # in. The constructor is tabled by T-NEW (emptiness, both bounds returned unchanged); when it declines the pair
+            # the raw value below is used and the extra fields stay unset (reading one makes the analysis inconclusive)
+            v = self._via_new(lower, upper)
+            if v is not None:
+                return v
         f = [None] * self.nfields
         f[self.f_lower] = BoxV(Cell(lower)) if self.boxed[self.f_lower] else lower
         f[self.f_upper] = BoxV(Cell(upper)) if self.boxed[self.f_upper] else upper
         return Adt(BSET, 0, f)
+
+    def _via_new(self, lower, upper):
+        key = "range::BoundSet::new"
+        if not self.prog.has_body(key):
+            return None
+        it = Interp(self.prog, Policy(), overrides=dict(LEVEL1))
+        try:
+            r = it.call_body(key, [lower, upper])
+        except (Inconclusive, Panic):
+            return None
+        if it.ctx.decisions:
+            return None
+        return it.strip(r.fields[0]) if is_some(r) else None
 
     # ---- decoding of results
     def dec_bound(self, interp, v):
